@@ -1020,6 +1020,11 @@ namespace east {
     int nodes = 0;
     int fitted = 0, fallbacks = 0;
     int noCst = 0;  // > 0: no Cste:: leaf (first branch of a nested conditional)
+    //! user functions whose argument list is being generated: f(a, f(b,c)) is a known finding
+    //! (C13.deps.nested_same_function), never generated unless allowed
+    std::set<int> activeCalls;
+    bool allowNestedSameCall = false;
+    int avoidedNestedCalls = 0;
 
     Generator(verif::Case& cc, const GenOptions& oo) : c(cc), o(oo) {}
 
@@ -1460,7 +1465,14 @@ namespace east {
         case 11: {
           auto n = mk(K::Call);
           n->id = static_cast<int>(c.pick(o.ncalls, "call"));
+          if (activeCalls.count(n->id) && !allowNestedSameCall) {
+            ++avoidedNestedCalls;
+            --nodes;
+            return leaf();
+          }
+          const bool inserted = activeCalls.insert(n->id).second;
           for (int i = 0; i != calls.at(n->id).second; ++i) n->args.push_back(gen(depth - 1));
+          if (inserted) activeCalls.erase(n->id);
           // the body of the user function was generated for arguments in [0.5, 2]
           for (auto& a : n->args)
             if (!(a->val >= 0.5L && a->val <= 2)) a = fit(a, 0.5, 2);
